@@ -123,8 +123,11 @@ func (w *c13World) step() {
 	switch verif_Choose(13) {
 	case 0: // Set (scalar or list value, as the repositories store both)
 		var val any = v
-		if verif_Bool() {
+		switch verif_Choose(3) {
+		case 1:
 			val = []any{v}
+		case 2: // index lists do contain repeated members
+			val = []any{v, int64(verif_IntRange(0, 3)), v}
 		}
 		err := s.Set(k, val, ttl)
 		r.m[k] = &c13Item{val: val, exp: c13Exp(now, ttl)}
